@@ -64,7 +64,7 @@ STD_ENUMS = {
     'Option': ['None', 'Some'], 'Result': ['Ok', 'Err'], 'Poll': ['Ready', 'Pending'],
     'ControlFlow': ['Continue', 'Break'], 'Ordering': ['Less', 'Equal', 'Greater'],
     'Cow': ['Borrowed', 'Owned'], 'Entry': ['Occupied', 'Vacant'], 'Bound': ['Included', 'Excluded', 'Unbounded'],
-    'EitherOrBoth': ['Both', 'Left', 'Right'], 'Either': ['Left', 'Right'], 'AssertKind': ['Eq', 'Ne', 'Match'],
+    'EitherOrBoth': ['Both', 'Left', 'Right'], 'Component': ['Prefix', 'RootDir', 'CurDir', 'ParentDir', 'Normal'], 'Either': ['Left', 'Right'], 'AssertKind': ['Eq', 'Ne', 'Match'],
 }
 ORDERING_DISCR = {'Less': -1, 'Equal': 0, 'Greater': 1}
 
@@ -86,7 +86,7 @@ class Engine:
         self.models = []                           # [(compiled regex, fn)]
         self.touched = {}; self.cov = set(); self.const_overrides = {}; self.max_orders = 720; self.notes = set()
         from . import models, models2, models3, models4
-        models.register(self); models2.register2(self); models3.register3(self); models4.register4(self)
+        models.register(self); models2.register2(self); models3.register3(self); models4.register4(self); models4.register_path(self)
 
     # ---------------- forking
     def choose(self, n):
